@@ -70,7 +70,7 @@ WUnch == UNCHANGED <<wpc, wop, wcase, wout, nextOp, sentAfterStop>>
 CUnch == UNCHANGED <<pi, ppc, pstatus, executed, cur, fails, limit>>
 
 \* plan loop (core.py)
-P_Start == /\ ppc = "start" /\ Emit(Ev("ES", 0, 0, "")) /\ ppc' = "phase" /\ pi' = 1
+P_Start == /\ ppc = "start" /\ Emit(Ev("ES", 0, 0, "")) /\ ppc' = (IF stop THEN "finish" ELSE "phase") /\ pi' = 1   \* core.py: interrupted before the first phase
            /\ UNCHANGED <<nextOp, q, wpc, wop, wcase, wout, stop, fails, limit, pstatus, executed, cur, problem, sentAfterStop, stopped, faulted>>
 P_PhaseStarted ==
   /\ ppc = "phase" /\ pi <= NPhases
@@ -171,7 +171,7 @@ W_Intr(w) == /\ wpc[w] = "intr" /\ Put(Ev("INT", pi, 0, "")) /\ wpc' = [wpc EXCE
              /\ NoEmit /\ CUnch /\ UNCHANGED <<nextOp, wop, wcase, wout, stop, problem, sentAfterStop, stopped, faulted>>
 
 \* environment
-Env_Stop == /\ AllowStop /\ ~stopped /\ ppc \notin {"start", "end"} /\ stop' = TRUE /\ stopped' = TRUE
+Env_Stop == /\ AllowStop /\ ~stopped /\ ppc # "end" /\ stop' = TRUE /\ stopped' = TRUE
             /\ NoEmit /\ WUnch /\ CUnch /\ UNCHANGED <<q, problem, faulted>>
 
 Next == \/ P_Start \/ P_PhaseStarted \/ P_Skip \/ P_Finish
